@@ -23,6 +23,8 @@ from . import c03_context as C3
 from . import c04_status as C4
 from . import c05_fva as C5
 from . import c15_dictlist  # noqa
+from . import c07_knockout  # noqa  (assumed DictList.get_by_any)
+from . import c09_pfba  # noqa  (add_pfba, proved)
 from pyvc import npalg as N
 from pyvc.state import alloc_list
 from pyvc.values import VReal, xr_eq, id_lit
@@ -36,7 +38,7 @@ SENSES = (("min", "minimum"), ("max", "maximum"))
 
 
 def _model_t():
-    obj = TObj("Objective", {"value": TReal(), "direction": TStr(), "expression": N.TNp()})
+    obj = TObj("Objective", {"value": TReal(), "direction": TStr(), "expression": N.TNp(), "name": TStr()})
     return TObj("Model", {"_contexts": TList("ref:HistoryManager"), "_solver": TObj("Solver", {"status": TStr(), "objective": obj}),
                           "reactions": TDictList("Reaction"), "problem": N.TNp()})
 
@@ -68,8 +70,10 @@ REG.add(Contract(MV, "_init_worker", "C05", [("model", _model_t()), ("loopless",
 def global_hook(eng, name):
     if name == "Zero":
         return N.VNp(z3.Const("np:Zero", N.NP))
-    if name == "_fva_step":
-        return VFunc("abstract", "_fva_step")
+    if name in ("_fva_step", "add_pfba"):
+        return VFunc("abstract", name)
+    if name == "warn":
+        return VFunc("builtin", "print")          # warnings.warn: no effect on the model
     return None
 
 
@@ -83,6 +87,10 @@ def _stored(st, what):
 
 def call_abstract(eng, st, f, pos, kw):
     """_fva_step(id) by its contract; additionally the LP it solved and the value it returned are recorded under the id (ghost)"""
+    if f.a == "add_pfba":
+        # by its proved contract (C09); the arguments of the call are recorded
+        outs = eng.apply_contract(st, REG.get("add_pfba"), list(pos), kw)
+        return [(k, s.setghost("pfba_call", {"pos": tuple(pos), "kw": dict(kw)}) if k == "ok" else s, v) for k, s, v in outs]
     if f.a != "_fva_step":
         return None
     outs = eng.apply_contract(st, REG.get("_fva_step"), list(pos), kw)
@@ -100,8 +108,8 @@ def call_abstract(eng, st, f, pos, kw):
 
 def call_method_hook(eng, st, recv, name, pos, kw):
     if isinstance(recv, VObj) and recv.cls == "Model" and name == "add_cons_vars":
-        tr = st.ghost.get("trace", ())
-        return [("ok", st.setghost("trace", tr + (("add_cons_vars", tuple(pos), st),)), NONE)]
+        tr = st.ghost.get("fva_trace", ())
+        return [("ok", st.setghost("fva_trace", tr + (("add_cons_vars", tuple(pos), st),)), NONE)]
     return None
 
 
@@ -139,10 +147,18 @@ def _unit(r):
     return z3.Store(z3.Store(ZEROMAP, C1.fwd(r), z3.RealVal(1)), C1.rev(r), z3.RealVal(-1))
 
 
+def _req(E, st):
+    """the requested reactions: all reactions of the model, or the members named by reaction_list (assumed get_by_any)"""
+    if isinstance(E["reaction_list"], VNone):
+        return L(E.s0, _dl(E))
+    l = st.ghost.get("gba_list")
+    return st.objs[l.oid]["len"], st.objs[l.oid]["elem"]
+
+
 def _sweep_done(E, st, sense, what, upto):
-    """for the first `upto` reactions: the LP solved in direction `sense` had objective +fwd -rev of that reaction, and the value of
-    that solve is what is stored under (id, what)"""
-    n, e = L(E.s0, _dl(E))
+    """for the first `upto` requested reactions: the LP solved in direction `sense` had objective +fwd -rev of that reaction, and the
+    value of that solve is what is stored under (id, what)"""
+    n, e = _req(E, st)
     ids = E.eng.heap_arr(E.s0, "_id")
     sw, vk, vv = _rec(st, sense)
     sk, sv = _stored(st, what)
@@ -165,7 +181,7 @@ def _inv_steps(E, Lc):
         return z3.BoolVal(False)
     what = dict(SENSES)[sense]
     obj = _objective(st, E["model"])
-    n, e = L(E.s0, _dl(E))
+    n, e = _req(E, st)
     cs = [Lc.n == n, _zero_obj(st), st.objs[obj.oid]["attr:direction"].t == id_lit(sense) if isinstance(st.objs[obj.oid]["attr:direction"], VStr)
           else z3.BoolVal(isinstance(st.objs[obj.oid]["attr:direction"], VConc) and st.objs[obj.oid]["attr:direction"].py == sense),
           _sweep_done(E, st, sense, what, Lc.i)]
@@ -182,15 +198,18 @@ def _pre(E):
     return z3.And(WF(E, E.s0, dl), C3._ctx_nonnull(Env({"obj": E["model"]}, E.s0, eng=E.eng)),
                   E.eng.to_real(E["fraction_of_optimum"]).k == 0,          # the fraction is a finite number
                   E.eng.to_real(E["fraction_of_optimum"]).v != z3.Real("NaN_const"),
+                  z3.BoolVal(True) if isinstance(E["pfba_factor"], VNone) else z3.And(E.eng.to_real(E["pfba_factor"]).k == 0,
+                                                                                     E.eng.to_real(E["pfba_factor"]).v != z3.Real("NaN_const")),
                   FA([j], z3.Implies(z3.And(0 <= j, j < n), C1.model_of(E, E.s0, e[j]) != NULL), patterns=[e[j]]))
 
 
 def _post_for(direction):
     def post(E):
-        n, e = L(E.s0, _dl(E))
-        tr = E.s1.ghost.get("trace", ())
+        n, e = _req(E, E.s1)
+        tr = E.s1.ghost.get("fva_trace", ())
         cs = []
-        ok_tr = len(tr) == 1 and tr[0][0] == "add_cons_vars" and len(tr[0][1]) == 1
+        with_pfba = not isinstance(E["pfba_factor"], VNone)
+        ok_tr = len(tr) == (2 if with_pfba else 1) and all(t[0] == "add_cons_vars" and len(t[1]) == 1 for t in tr)
         cs.append(z3.BoolVal(bool(ok_tr)))
         if ok_tr:
             lst, st_add = tr[0][1][0], tr[0][2]
@@ -212,6 +231,31 @@ def _post_for(direction):
                 cs.append(lst.t == N.term("list", var, con))
                 # the bound uses the optimum of a solve that succeeded: status optimal, finite value, at that moment
                 cs.append(z3.And(C4._is_status(C4.status_of(st_add, m), "optimal"), opt.k == 0))
+        if ok_tr and with_pfba:
+            # the total-flux cap: the parsimonious problem is set up with the SAME fraction (repair 1766950), solved, and
+            # flux_sum <= pfba_factor x that minimum is tied to the total-flux expression by an equality; added after the inner
+            # context has been left
+            lst2, st2 = tr[1][1][0], tr[1][2]
+            call = E.s1.ghost.get("pfba_call")
+            good_call = (call is not None and len(call["pos"]) == 1 and call["pos"][0] is E["model"]
+                         and set(call["kw"]) == {"fraction_of_optimum"} and call["kw"]["fraction_of_optimum"] is E["fraction_of_optimum"])
+            cs.append(z3.BoolVal(bool(good_call)))
+            if not isinstance(lst2, N.VNp):
+                cs.append(z3.BoolVal(False))
+            else:
+                m = E["model"]
+                prob = E.s0.objs[m.oid]["attr:problem"].t
+                obj2 = _objective(st2, m)
+                mn = st2.objs[obj2.oid]["attr:value"]                     # minimal total flux found by the parsimonious solve
+                pf = E.eng.to_real(E["pfba_factor"])
+                fs = N.term("call(ub)", N.term("attr.Variable", prob), N.lift(VConc("flux_sum")), N.lift(VReal(z3.IntVal(0), pf.v * mn.v)))
+                ex2 = st2.objs[obj2.oid]["attr:expression"].t
+                con2 = N.term("call(lb,name,ub)", N.term("attr.Constraint", prob), N.term("sub", ex2, fs), N.lift(VInt(0)),
+                              N.lift(VConc("flux_sum_constraint")), N.lift(VInt(0)))
+                cs.append(lst2.t == N.term("list", fs, con2))
+                n0c, _ = C3._ctxs(E.s0, m)
+                n2c, _ = C3._ctxs(st2, m)
+                cs.append(n2c == n0c + 1)                                  # added in the function's own context, not the inner one
         cs.append(z3.BoolVal(E.s1.ghost.get("objective_zeroed") is True))
         cs.append(_sweep_done(E, E.s1, "min", "minimum", n))
         cs.append(_sweep_done(E, E.s1, "max", "maximum", n))
@@ -227,9 +271,13 @@ def _post_for(direction):
 def _mod(E):
     obj = _objective(E.s0, E["model"])
     out = [("heap", "hm_len"), ("attr", E["model"], "_contexts", lambda st: alloc_list(st, "ref:HistoryManager")),
-           ("ghost", "world", lambda st: fresh("world", C3.World)), ("ghost", "trace", lambda st: ()),
+           ("ghost", "world", lambda st: fresh("world", C3.World)), ("ghost", "fva_trace", lambda st: ()), ("ghost", "trace", lambda st: ()),
            ("ghost", "objc", lambda st: fresh("objc", C5.CoefMap)), ("ghost", "solved_with", lambda st: fresh("solved", C5.CoefMap)),
            ("ghost", "objective_zeroed", lambda st: None), ("ghost", "sense_py", lambda st: None),
+           ("ghost", "pfba_call", lambda st: None), ("ghost", "gba_list", lambda st: None), ("ghost", "kmg_list", lambda st: None),
+           ("ghost", "objective_installed", lambda st: None),
+           ("attr", obj, "name", lambda st: (st, VStr(fresh("nm", Id)))),
+           ("attr", obj, "expression", lambda st: (st, N.VNp(fresh("np:expr", N.NP)))),
            ("ghost", ("global", "_model"), lambda st: None), ("ghost", ("global", "_loopless"), lambda st: None),
            ("attr", obj, "direction", lambda st: (st, VStr(fresh("dir", Id))))]
     for s, w in SENSES:
@@ -240,11 +288,12 @@ def _mod(E):
 
 def _cases():
     out = []
-    for d in ("max", "other"):
+    for d, listed, pf in [(d, l, p) for d in ("max", "other") for l in (False, True) for p in (False, True)]:
         req = (lambda E: _objective(E.s0, E["model"]) is not None and
                E.s0.objs[_objective(E.s0, E["model"]).oid]["attr:direction"].t == id_lit("max"))
-        c = Case("maximisation" if d == "max" else "minimisation",
+        c = Case(("maximisation" if d == "max" else "minimisation") + (":list" if listed else ":all") + (":pfba" if pf else ""),
                  requires=req if d == "max" else (lambda E, req=req: z3.Not(req(E))), ensures=_post_for(d))
+        c.params_override = {"reaction_list": N.TNp() if listed else TNone(), "pfba_factor": TReal() if pf else TNone()}
         c.may_raise = "Exception"               # no optimum, or a step whose status has no primal values: the error propagates
         c.ensures_on_raise = lambda E: z3.BoolVal(True)
         c.modifies_on_raise = _mod
@@ -257,7 +306,7 @@ REG.add(Contract(MV, "flux_variability_analysis", "C05",
                   ("pfba_factor", TNone()), ("processes", TConc(1))], _cases(), pre=_pre, modifies=_mod,
                  key="flux_variability_analysis", axioms=lambda E: C3.run_axioms(),
                  loops={2: LoopSpec(_inv_steps, lambda E, Lc: _loop_mod(E, Lc))},
-                 note="serial path only (processes = 1), loopless = False, pfba_factor = None, reaction_list = None (all reactions)"))
+                 note="serial path only (processes = 1), loopless = False; pfba_factor finite when given"))
 
 
 def _loop_mod(E, Lc):
